@@ -112,7 +112,7 @@ func init() {
 	// ------------------------------------------------------------------ C17
 	register(&Spec{Prop: "C17",
 		Gen: func(t *rapid.T, th bool) *Case {
-			pf := &Profile{Kinds: allKinds, QKinds: []string{"std", "prio", "pers", "persprio"}, MaxQueues: 3, Concs: []int{1, 2, 3}, MinClients: 2, MaxClients: 4, MaxOps: scale(th, 8, 14),
+			pf := &Profile{Kinds: allKinds, QKinds: []string{"std", "prio", "pers", "persprio", "dist", "distprio"}, MaxQueues: 3, Concs: []int{1, 2, 3}, MinClients: 2, MaxClients: 4, MaxOps: scale(th, 8, 14),
 				Ops:     map[string]int{"add": 30, "addall": 5, "qpending": 12, "npend": 10, "nproc": 8, "metrics": 10, "settle": 6, "purge": 3, "close": 4, "qclose": 1, "release": 5, "yield": 3},
 				Ctrl:    map[string]int{"pause": 2, "resume": 3, "tune": 3},
 				MaxCtrl: 3, GatedProb: 35, Outs: []int{OutVal, OutVal, OutErr, OutPanicStr}, MaxBatch: 4}
